@@ -2,8 +2,8 @@
    codec catalogue.  Proof file: no definitions of the model are changed here. *)
 From Coq Require Import List Arith Bool Strings.Byte Lia.
 From Coq Require Strings.String.
-From DX Require Import Bytes Res Text.
-From DXGen Require GenCodecs.
+From DX Require Import Bytes Res Codec Text.
+From DXGen Require GenCodecs GenText.
 Import ListNotations.
 Local Open Scope list_scope.
 
@@ -239,4 +239,687 @@ Section Generic.
     rewrite <- occ_in_zero_iff. lia.
   Qed.
 
+  (* ---------------------------------------------------------------------------------------------- *)
+  (* unbordered patterns: no proper non-empty prefix is also a suffix (the pattern cannot overlap itself) *)
+
+  Definition unbordered (nl : list A) : Prop :=
+    forall b, b <> [] -> length b < length nl ->
+              (exists r, nl = b ++ r) -> (exists q, nl = q ++ b) -> False.
+
+  Fixpoint tails (l : list A) : list (list A) :=
+    match l with
+    | [] => [[]]
+    | _ :: t => l :: tails t
+    end.
+
+  (* every proper non-empty suffix of nl fails to be a prefix of nl *)
+  Definition unborderedb (nl : list A) : bool :=
+    match nl with
+    | [] => true
+    | _ :: t => forallb (fun s => is_nil s || negb (prefixb s nl)) (tails t)
+    end.
+
+  Lemma in_tails : forall s l, In s (tails l) <-> exists q, l = q ++ s.
+  Proof.
+    intros s l. induction l as [|x l IH]; cbn [tails In].
+    - split.
+      + intros [<- | []]. exists []. reflexivity.
+      + intros [q H]. left. symmetry in H. apply app_eq_nil in H. symmetry. apply H.
+    - rewrite IH. split.
+      + intros [<- | [q ->]]; [exists []; reflexivity | exists (x :: q); reflexivity].
+      + intros [q H]. destruct q as [|y q]; [left; exact H | right]. cbn in H. injection H as _ ->.
+        exists q. reflexivity.
+  Qed.
+
+  Lemma unborderedb_sound : forall nl, unborderedb nl = true -> unbordered nl.
+  Proof.
+    intros nl H b Hb Hlen [r Hr] [q Hq]. destruct nl as [|x t]; [cbn in Hlen; lia|].
+    cbn [unborderedb] in H. rewrite forallb_forall in H.
+    destruct q as [|y q].
+    - cbn in Hq. subst b. lia.
+    - cbn in Hq. injection Hq as _ Ht.
+      specialize (H b). rewrite in_tails in H. specialize (H (ex_intro _ q Ht)).
+      destruct b; [congruence|]. cbn [is_nil orb] in H. apply negb_true_iff in H.
+      apply prefixb_false in H. apply H. exists r. exact Hr.
+  Qed.
+
+  Lemma unborderedb_complete : forall nl, unbordered nl -> unborderedb nl = true.
+  Proof.
+    intros nl H. destruct nl as [|x t]; [reflexivity|].
+    cbn [unborderedb]. apply forallb_forall. intros s Hs. apply in_tails in Hs. destruct Hs as [q Hq].
+    destruct s as [|y s]; [reflexivity|]. cbn [is_nil orb]. apply negb_true_iff. apply prefixb_false.
+    intros [r Hr]. apply (H (y :: s)); [discriminate | | exists r; exact Hr | exists (x :: q); rewrite Hq; reflexivity].
+    rewrite Hq. cbn. rewrite app_length. cbn. lia.
+  Qed.
+
+  Lemma unbordered_nil : unbordered [].
+  Proof. intros b _ H. cbn in H. lia. Qed.
+
+  (* inside an occurrence of an unbordered pattern no other occurrence starts *)
+  Lemma unbordered_no_inner : forall sep, unbordered sep ->
+    forall a b r, sep = a ++ b -> a <> [] -> b <> [] -> prefixb sep (b ++ r) = false.
+  Proof.
+    intros sep Hu a b r Hab Ha Hb. apply prefixb_false. intros [r' H].
+    apply app_eq_app in H. destruct H as [l [[H1 H2] | [H1 H2]]].
+    - assert (length b = length (sep ++ l)) by (rewrite <- H1; reflexivity).
+      assert (length sep = length (a ++ b)) by (rewrite <- Hab; reflexivity).
+      rewrite app_length in *. destruct a; [congruence | cbn in *; lia].
+    - apply (Hu b Hb).
+      + assert (length sep = length (a ++ b)) by (rewrite <- Hab; reflexivity).
+        rewrite app_length in *. destruct a; [congruence | cbn in *; lia].
+      + exists l. exact H1.
+      + exists a. exact Hab.
+  Qed.
+
+  Lemma occ_in_self : forall sep r, sep <> [] -> unbordered sep -> occ_in sep sep r = 1.
+  Proof.
+    intros sep r Hsep Hu.
+    assert (H : forall b a, sep = a ++ b -> a <> [] -> occ_in sep b r = 0).
+    { induction b as [|x b IH]; intros a Hab Ha; [reflexivity|].
+      cbn [occ_in]. rewrite (unbordered_no_inner sep Hu a (x :: b) r Hab Ha) by discriminate.
+      cbn [Nat.add]. apply (IH (a ++ [x])).
+      - rewrite <- app_assoc. exact Hab.
+      - destruct a; discriminate. }
+    destruct sep as [|s sep']; [congruence|].
+    cbn [occ_in]. rewrite prefixb_app. rewrite (H sep' [s]); [reflexivity | reflexivity | discriminate].
+  Qed.
+
+  Lemma occurrences_sep_app : forall sep r, sep <> [] -> unbordered sep ->
+    occurrences sep (sep ++ r) = 1 + occurrences sep r.
+  Proof. intros sep r H Hu. rewrite occurrences_app, occ_in_self by assumption. reflexivity. Qed.
+
+  (* a suffix occurrence of an unbordered pattern cannot straddle an earlier occurrence *)
+  Lemma unbordered_overlap : forall sep, unbordered sep ->
+    forall q r, suffixb sep (q ++ sep ++ r) = true -> r = [] \/ suffixb sep r = true.
+  Proof.
+    intros sep Hu q r H. apply suffixb_spec in H. destruct H as [y H].
+    rewrite app_assoc in H. apply app_eq_app in H. destruct H as [l [[H1 H2] | [H1 H2]]].
+    - destruct r as [|x r]; [left; reflexivity | right].
+      destruct l as [|z l].
+      + cbn in H2. rewrite H2. apply suffixb_spec. exists []. reflexivity.
+      + exfalso. apply app_eq_app in H1. destruct H1 as [l2 [[H3 H4] | [H3 H4]]].
+        * assert (length sep = length ((z :: l) ++ x :: r)) by (rewrite <- H2; reflexivity).
+          assert (length (z :: l) = length (l2 ++ sep)) by (rewrite <- H4; reflexivity).
+          rewrite !app_length in *. cbn in *. lia.
+        * apply (Hu (z :: l)); [discriminate | | exists (x :: r); exact H2 | exists l2; exact H4].
+          assert (length sep = length ((z :: l) ++ x :: r)) by (rewrite <- H2; reflexivity).
+          rewrite app_length in *. cbn in *. lia.
+    - right. rewrite H2. apply suffixb_app.
+  Qed.
+
+  (* ---------------------------------------------------------------------------------------------- *)
+  (* what split returns *)
+
+  Local Notation addnl sep := (fun l : list A => l ++ sep).
+
+  Lemma split_aux_pieces : forall sep : list A, sep <> [] -> forall l cur,
+    occ_in sep (rev cur) l = 0 ->
+    exists init lst, split_aux sep cur l 0 = init ++ [lst] /\
+                     concat (map (addnl sep) init) ++ lst = rev cur ++ l /\
+                     Forall (fun p => occurrences sep (p ++ sep) = 1) init /\
+                     occurrences sep lst = 0.
+  Proof.
+    intros sep Hsep.
+    apply (split_aux_ind sep Hsep (fun cur l ps =>
+      occ_in sep (rev cur) l = 0 ->
+      exists init lst, ps = init ++ [lst] /\
+                       concat (map (addnl sep) init) ++ lst = rev cur ++ l /\
+                       Forall (fun p => occurrences sep (p ++ sep) = 1) init /\
+                       occurrences sep lst = 0)).
+    - intros cur H. exists [], (rev cur). rewrite frev_rev. rewrite occ_in_nil_r in H.
+      split; [reflexivity|]. split; [cbn; rewrite app_nil_r; reflexivity|]. split; [constructor | exact H].
+    - intros cur r IH H. destruct (IH eq_refl) as [init [lst [E [Hc [Hf H0]]]]].
+      exists (rev cur :: init), lst. rewrite frev_rev, E. repeat split.
+      + cbn [map concat]. rewrite <- !app_assoc. cbn [rev app] in Hc. rewrite Hc. reflexivity.
+      + constructor; [|assumption].
+        rewrite occurrences_app, occurrences_self by assumption.
+        pose proof (occ_in_mono sep (rev cur) sep r). lia.
+      + assumption.
+    - intros cur x t Hp IH H. cbn [rev] in IH. rewrite <- app_assoc in IH. apply IH.
+      rewrite occ_in_app. cbn [app occ_in]. rewrite Hp, H. reflexivity.
+  Qed.
+
+  Lemma split_aux_length : forall sep : list A, sep <> [] -> unbordered sep -> forall l cur,
+    length (split_aux sep cur l 0) = 1 + occurrences sep l.
+  Proof.
+    intros sep Hsep Hu.
+    apply (split_aux_ind sep Hsep (fun cur l ps => length ps = 1 + occurrences sep l)).
+    - reflexivity.
+    - intros cur r IH. cbn [length]. rewrite IH, occurrences_sep_app by assumption. reflexivity.
+    - intros cur x t Hp IH. rewrite IH. cbn [Bytes.occurrences]. rewrite Hp. reflexivity.
+  Qed.
+
+  Lemma last_cons_nonnil : forall (x : list A) ps, ps <> [] -> last (x :: ps) [] = last ps [].
+  Proof. intros x ps H. destruct ps; [congruence | reflexivity]. Qed.
+
+  Lemma split_aux_last_nil_of_suffix : forall sep : list A, sep <> [] -> unbordered sep -> forall l cur,
+    occ_in sep (rev cur) l = 0 -> suffixb sep (rev cur ++ l) = true -> last (split_aux sep cur l 0) [] = [].
+  Proof.
+    intros sep Hsep Hu.
+    apply (split_aux_ind sep Hsep (fun cur l ps =>
+      occ_in sep (rev cur) l = 0 -> suffixb sep (rev cur ++ l) = true -> last ps [] = [])).
+    - intros cur H Hs. rewrite occ_in_nil_r in H. rewrite app_nil_r in Hs.
+      apply suffixb_occurrences in Hs; [lia | assumption].
+    - intros cur r IH H Hs. rewrite last_cons_nonnil by apply split_aux_nonnil.
+      apply unbordered_overlap in Hs; [|assumption]. destruct Hs as [-> | Hs].
+      + reflexivity.
+      + apply IH; [reflexivity | exact Hs].
+    - intros cur x t Hp IH H Hs. apply IH.
+      + cbn [rev]. rewrite occ_in_app. cbn [app occ_in]. rewrite Hp, H. reflexivity.
+      + cbn [rev]. rewrite <- app_assoc. exact Hs.
+  Qed.
+
+  Lemma split_aux_suffix_of_last_nil : forall sep : list A, sep <> [] -> forall l cur,
+    rev cur ++ l <> [] -> last (split_aux sep cur l 0) [] = [] -> suffixb sep (rev cur ++ l) = true.
+  Proof.
+    intros sep Hsep.
+    apply (split_aux_ind sep Hsep (fun cur l ps =>
+      rev cur ++ l <> [] -> last ps [] = [] -> suffixb sep (rev cur ++ l) = true)).
+    - intros cur H Hl. cbn [last] in Hl. rewrite frev_rev in Hl. rewrite Hl in H. cbn in H. congruence.
+    - intros cur r IH _ Hl. rewrite last_cons_nonnil in Hl by apply split_aux_nonnil.
+      destruct r as [|x r].
+      + rewrite app_nil_r. apply suffixb_app.
+      + specialize (IH ltac:(discriminate) Hl). cbn [rev app] in IH. apply suffixb_spec in IH.
+        destruct IH as [q ->]. rewrite !app_assoc. apply suffixb_app.
+    - intros cur x t Hp IH H Hl. cbn [rev] in IH. rewrite <- app_assoc in IH. apply IH; assumption.
+  Qed.
+
+  (* the decomposition of [split sep d] used by all C16 theorems *)
+  Lemma split_spec : forall sep d : list A, sep <> [] ->
+    exists init lst, split sep d = init ++ [lst] /\
+                     concat (map (addnl sep) init) ++ lst = d /\
+                     Forall (fun p => occurrences sep (p ++ sep) = 1) init /\
+                     occurrences sep lst = 0 /\
+                     (unbordered sep -> length init = occurrences sep d) /\
+                     (unbordered sep -> suffixb sep d = true -> lst = []) /\
+                     (d <> [] -> lst = [] -> suffixb sep d = true).
+  Proof.
+    intros sep d Hsep. unfold Bytes.split.
+    destruct (split_aux_pieces sep Hsep d [] eq_refl) as [init [lst [E [Hc [Hf H0]]]]].
+    exists init, lst. repeat split; try assumption.
+    - intros Hu. pose proof (split_aux_length sep Hsep Hu d []) as H. rewrite E, app_length in H. cbn in H. lia.
+    - intros Hu Hs. pose proof (split_aux_last_nil_of_suffix sep Hsep Hu d [] eq_refl Hs) as H.
+      rewrite E, last_last in H. exact H.
+    - intros Hd Hl. apply (split_aux_suffix_of_last_nil sep Hsep d []); [exact Hd|].
+      rewrite E, last_last. exact Hl.
+  Qed.
+
+  (* ---------------------------------------------------------------------------------------------- *)
+  (* split_lines_g in terms of the decomposition *)
+
+  Lemma cut_last_g_app : forall n (a : list (list A)) x,
+    cut_last_g n (a ++ [x]) = a ++ [firstn (length x - n) x].
+  Proof.
+    intros n a x. induction a as [|y a IH]; [reflexivity|].
+    cbn [app]. destruct (a ++ [x]) as [|l0 l1] eqn:E; [destruct a; discriminate|].
+    change (cut_last_g n (y :: l0 :: l1)) with (y :: cut_last_g n (l0 :: l1)). rewrite IH. reflexivity.
+  Qed.
+
+  Lemma firstn_strip : forall p nl : list A, firstn (length (p ++ nl) - length nl) (p ++ nl) = p.
+  Proof.
+    intros p nl. rewrite app_length. replace (length p + length nl - length nl) with (length p) by lia.
+    rewrite firstn_app, Nat.sub_diag, firstn_all. cbn. apply app_nil_r.
+  Qed.
+
+  Lemma is_nil_false : forall l : list A, l <> [] -> is_nil l = false.
+  Proof. intros l H. destruct l; [congruence | reflexivity]. Qed.
+
+  Lemma split_lines_keep : forall d nl init lst, d <> [] -> nl <> [] -> split nl d = init ++ [lst] ->
+    split_lines_g d nl true =
+      Ok (if suffixb nl d then map (addnl nl) init else map (addnl nl) init ++ [lst]).
+  Proof.
+    intros d nl init lst Hd Hnl E. unfold Text.split_lines_g.
+    rewrite (is_nil_false d Hd), (is_nil_false nl Hnl), E. destruct (suffixb nl d).
+    - rewrite map_app. cbn [map]. rewrite removelast_last. reflexivity.
+    - rewrite map_app. cbn [map]. rewrite cut_last_g_app, firstn_strip. reflexivity.
+  Qed.
+
+  Lemma split_lines_nokeep : forall d nl init lst, d <> [] -> nl <> [] -> split nl d = init ++ [lst] ->
+    split_lines_g d nl false = Ok (if suffixb nl d then init else init ++ [lst]).
+  Proof.
+    intros d nl init lst Hd Hnl E. unfold Text.split_lines_g.
+    rewrite (is_nil_false d Hd), (is_nil_false nl Hnl), E. destruct (suffixb nl d).
+    - rewrite removelast_last. reflexivity.
+    - reflexivity.
+  Qed.
+
+  (* ---------------------------------------------------------------------------------------------- *)
+  (* C16 *)
+
+  (* a line that ends with the newline and contains it nowhere else *)
+  Definition terminated (nl ln : list A) : Prop :=
+    exists body, ln = body ++ nl /\ occurrences nl ln = 1.
+  (* a non-empty line that neither ends with the newline nor contains it anywhere *)
+  Definition unterminated (nl ln : list A) : Prop :=
+    ln <> [] /\ suffixb nl ln = false /\ occurrences nl ln = 0.
+  (* remove exactly one trailing newline, if there is one *)
+  Definition strip_one (nl ln : list A) : list A :=
+    if suffixb nl ln then firstn (length ln - length nl) ln else ln.
+
+  Lemma terminated_positions : forall nl ln, nl <> [] ->
+    (terminated nl ln <->
+     exists body, ln = body ++ nl /\ forall i, i < length body -> prefixb nl (skipn i ln) = false).
+  Proof.
+    intros nl ln H. unfold terminated. split; intros [body [-> H1]]; exists body; (split; [reflexivity|]);
+      apply (occurrences_one_iff nl body H); exact H1.
+  Qed.
+
+  Lemma unterminated_positions : forall nl ln,
+    unterminated nl ln -> forall i, i < length ln -> prefixb nl (skipn i ln) = false.
+  Proof. intros nl ln [_ [_ H]]. apply occurrences_zero_iff. exact H. Qed.
+
+  Lemma strip_one_terminated : forall nl p, strip_one nl (p ++ nl) = p.
+  Proof. intros nl p. unfold strip_one. rewrite suffixb_app. apply firstn_strip. Qed.
+
+  Lemma strip_one_no_occ : forall nl ln, nl <> [] -> occurrences nl ln = 0 -> strip_one nl ln = ln.
+  Proof. intros nl ln H H0. unfold strip_one. rewrite occurrences_zero_not_suffix by assumption. reflexivity. Qed.
+
+  Lemma map_strip_one : forall nl init, map (strip_one nl) (map (addnl nl) init) = init.
+  Proof.
+    intros nl init. rewrite map_map. induction init as [|p init IH]; [reflexivity|].
+    cbn [map]. rewrite strip_one_terminated, IH. reflexivity.
+  Qed.
+
+  Theorem C16_total_ok : forall d nl k, d <> [] -> nl <> [] -> exists ls, split_lines_g d nl k = Ok ls.
+  Proof.
+    intros d nl k Hd Hnl. destruct (split_spec nl d Hnl) as [init [lst [E _]]].
+    destruct k; [rewrite (split_lines_keep d nl init lst Hd Hnl E)
+                | rewrite (split_lines_nokeep d nl init lst Hd Hnl E)]; eexists; reflexivity.
+  Qed.
+
+  Theorem C16_total_err : forall d nl k, d = [] \/ nl = [] -> split_lines_g d nl k = Err EAssertion.
+  Proof.
+    intros d nl k [-> | ->]; unfold Text.split_lines_g; [reflexivity|]. destruct d; reflexivity.
+  Qed.
+
+  Theorem C16_concat : forall d nl ls, d <> [] -> nl <> [] -> unbordered nl ->
+    split_lines_g d nl true = Ok ls -> concat ls = d.
+  Proof.
+    intros d nl ls Hd Hnl Hu H.
+    destruct (split_spec nl d Hnl) as [init [lst [E [Hc [_ [_ [_ [Hsuf _]]]]]]]].
+    rewrite (split_lines_keep d nl init lst Hd Hnl E) in H. injection H as <-.
+    destruct (suffixb nl d) eqn:Hs.
+    - rewrite (Hsuf Hu eq_refl), app_nil_r in Hc. exact Hc.
+    - rewrite concat_app. cbn [concat]. rewrite app_nil_r. exact Hc.
+  Qed.
+
+  Theorem C16_count : forall d nl ls, d <> [] -> nl <> [] -> unbordered nl ->
+    split_lines_g d nl true = Ok ls ->
+    length ls = occurrences nl d + (if suffixb nl d then 0 else 1).
+  Proof.
+    intros d nl ls Hd Hnl Hu H.
+    destruct (split_spec nl d Hnl) as [init [lst [E [_ [_ [_ [Hlen _]]]]]]].
+    rewrite (split_lines_keep d nl init lst Hd Hnl E) in H. injection H as <-.
+    specialize (Hlen Hu). destruct (suffixb nl d).
+    - rewrite map_length. lia.
+    - rewrite app_length, map_length. cbn. lia.
+  Qed.
+
+  (* same count for the mode without line ends *)
+  Theorem C16_count_nokeep : forall d nl ls, d <> [] -> nl <> [] -> unbordered nl ->
+    split_lines_g d nl false = Ok ls ->
+    length ls = occurrences nl d + (if suffixb nl d then 0 else 1).
+  Proof.
+    intros d nl ls Hd Hnl Hu H.
+    destruct (split_spec nl d Hnl) as [init [lst [E [_ [_ [_ [Hlen _]]]]]]].
+    rewrite (split_lines_nokeep d nl init lst Hd Hnl E) in H. injection H as <-.
+    specialize (Hlen Hu). destruct (suffixb nl d).
+    - lia.
+    - rewrite app_length. cbn. lia.
+  Qed.
+
+  Theorem C16_modes : forall d nl ls, d <> [] -> nl <> [] ->
+    split_lines_g d nl true = Ok ls ->
+    split_lines_g d nl false = Ok (map (strip_one nl) ls).
+  Proof.
+    intros d nl ls Hd Hnl H.
+    destruct (split_spec nl d Hnl) as [init [lst [E [_ [_ [H0 _]]]]]].
+    rewrite (split_lines_keep d nl init lst Hd Hnl E) in H. injection H as <-.
+    rewrite (split_lines_nokeep d nl init lst Hd Hnl E). destruct (suffixb nl d).
+    - rewrite map_strip_one. reflexivity.
+    - rewrite map_app, map_strip_one. cbn [map]. rewrite strip_one_no_occ by assumption. reflexivity.
+  Qed.
+
+  Theorem C16_shape : forall d nl ls, d <> [] -> nl <> [] -> unbordered nl ->
+    split_lines_g d nl true = Ok ls ->
+    exists init lst, ls = init ++ [lst] /\
+                     Forall (terminated nl) init /\
+                     (terminated nl lst <-> suffixb nl d = true) /\
+                     (unterminated nl lst <-> suffixb nl d = false).
+  Proof.
+    intros d nl ls Hd Hnl Hu H.
+    destruct (split_spec nl d Hnl) as [init [lst [E [Hc [Hf [H0 [_ [Hsuf Hnil]]]]]]]].
+    rewrite (split_lines_keep d nl init lst Hd Hnl E) in H. injection H as <-.
+    assert (Hterm : forall l, Forall (fun p => occurrences nl (p ++ nl) = 1) l ->
+                              Forall (terminated nl) (map (addnl nl) l)).
+    { intros l Hl. apply Forall_map. eapply Forall_impl; [|exact Hl].
+      intros p Hp. exists p. split; [reflexivity | exact Hp]. }
+    destruct (suffixb nl d) eqn:Hs.
+    - specialize (Hsuf Hu eq_refl). subst lst.
+      destruct init as [|p0 init0] eqn:Ei.
+      { cbn in Hc. congruence. }
+      rewrite <- Ei in *. assert (Hne : init <> []) by (rewrite Ei; discriminate).
+      destruct (exists_last Hne) as [init1 [p Ep]]. rewrite Ep in Hf |- *.
+      apply Forall_app in Hf. destruct Hf as [Hf1 Hf2]. inversion Hf2 as [|? ? Hp _]; subst.
+      exists (map (addnl nl) init1), (p ++ nl). rewrite map_app. cbn [map].
+      split; [reflexivity|]. split; [apply Hterm, Hf1|].
+      split; split.
+      + intros _. reflexivity.
+      + intros _. exists p. split; [reflexivity | exact Hp].
+      + intros [_ [_ Hz]]. rewrite Hp in Hz. discriminate.
+      + discriminate.
+    - exists (map (addnl nl) init), lst. split; [reflexivity|]. split; [apply Hterm, Hf|].
+      split; split.
+      + intros [body [_ H1]]. rewrite H0 in H1. discriminate.
+      + discriminate.
+      + intros _. reflexivity.
+      + intros _. split; [|split].
+        * intros ->. specialize (Hnil Hd eq_refl). congruence.
+        * apply occurrences_zero_not_suffix; assumption.
+        * exact H0.
+  Qed.
+
 End Generic.
+
+(* -------------------------------------------------------------------------------------------------- *)
+(* instantiation at bytes *)
+
+Lemma byte_eqb_spec : forall a b : byte, byte_eqb a b = true <-> a = b.
+Proof. intros a b. unfold byte_eqb. split; [apply byte_dec_bl | apply byte_dec_lb]. Qed.
+
+
+(* unbordered is necessary: Python's algorithm (and the model) loses a byte for nl = "aa", d = "aaa" *)
+Example bordered_newline_loses_a_byte :
+  let a := x61 in
+  split_lines_g byte_eqb [a; a; a] [a; a] true = Ok [[a; a]] /\
+  concat [[a; a]] <> [a; a; a] /\
+  ~ unbordered [a; a].
+Proof.
+  cbn zeta. split; [vm_compute; reflexivity|]. split; [discriminate|].
+  intros H. apply (H [x61]); [discriminate | cbn; lia | exists [x61]; reflexivity | exists [x61]; reflexivity].
+Qed.
+
+(* the count and concat claims both fail there, the modes claim does not need the hypothesis *)
+Example bordered_newline_miscounts :
+  let a := x61 in
+  occurrences byte_eqb [a; a] [a; a; a] + (if suffixb byte_eqb [a; a] [a; a; a] then 0 else 1) = 2 /\
+  exists ls, split_lines_g byte_eqb [a; a; a] [a; a] true = Ok ls /\ length ls = 1.
+Proof. cbn zeta. split; [vm_compute; reflexivity|]. eexists. split; vm_compute; reflexivity. Qed.
+
+(* ------------------------------------------------------------------------------------------------ *)
+(* the newline patterns the library uses *)
+
+Definition nl_ok (nl : bytes) : bool := is_nil nl || unborderedb byte_eqb nl.
+
+Lemma nl_ok_sound : forall nl, nl_ok nl = true -> nl <> [] -> unbordered nl.
+Proof.
+  intros nl H Hnl. unfold nl_ok in H. apply orb_true_iff in H. destruct H as [H | H].
+  - destruct nl; [congruence | discriminate].
+  - exact (unborderedb_sound byte_eqb byte_eqb_spec nl H).
+Qed.
+
+(* every mid-stream LF / CRLF pattern of every stateless codec of the catalogue *)
+Definition row_newlines_ok (r : GenCodecs.codec_row) : bool :=
+  if GenCodecs.cr_stateless r then nl_ok (GenCodecs.cr_lf_mid r) && nl_ok (GenCodecs.cr_crlf_mid r) else true.
+
+Lemma library_newlines_unborderedb : forallb row_newlines_ok GenCodecs.rows = true.
+Proof. vm_compute. reflexivity. Qed.
+
+Theorem library_newlines_unbordered : forall r, In r GenCodecs.rows -> GenCodecs.cr_stateless r = true ->
+  (GenCodecs.cr_lf_mid r <> [] -> unbordered (GenCodecs.cr_lf_mid r)) /\
+  (GenCodecs.cr_crlf_mid r <> [] -> unbordered (GenCodecs.cr_crlf_mid r)).
+Proof.
+  intros r Hin Hst. pose proof library_newlines_unborderedb as H. rewrite forallb_forall in H.
+  specialize (H r Hin). unfold row_newlines_ok in H. rewrite Hst in H. apply andb_true_iff in H.
+  destruct H as [H1 H2]. split; apply nl_ok_sound; assumption.
+Qed.
+
+(* the ten patterns named in the property: LF, CRLF and their UTF-16/32 LE/BE encodings *)
+Definition ten_newlines : list bytes :=
+  [ [x0a]; [x0d; x0a];
+    [x0a; x00]; [x0d; x00; x0a; x00];
+    [x00; x0a]; [x00; x0d; x00; x0a];
+    [x0a; x00; x00; x00]; [x0d; x00; x00; x00; x0a; x00; x00; x00];
+    [x00; x00; x00; x0a]; [x00; x00; x00; x0d; x00; x00; x00; x0a] ].
+
+Lemma ten_newlines_unborderedb : forallb (fun nl => negb (is_nil nl) && unborderedb byte_eqb nl) ten_newlines = true.
+Proof. vm_compute. reflexivity. Qed.
+
+Theorem ten_newlines_unbordered : forall nl, In nl ten_newlines -> nl <> [] /\ unbordered nl.
+Proof.
+  intros nl Hin. pose proof ten_newlines_unborderedb as H. rewrite forallb_forall in H.
+  specialize (H nl Hin). apply andb_true_iff in H. destruct H as [H1 H2]. split.
+  - destruct nl; [discriminate | discriminate].
+  - exact (unborderedb_sound byte_eqb byte_eqb_spec nl H2).
+Qed.
+
+(* ------------------------------------------------------------------------------------------------ *)
+(* the hypotheses of the C16 theorems are satisfiable on a non-trivial instance:
+   d = "ab\r\n\r\ncd\r\nx" / "ab\r\n\r\n", nl = "\r\n" *)
+
+Definition ex_nl : bytes := [x0d; x0a].
+Definition ex_d1 : bytes := [x61; x62; x0d; x0a; x0d; x0a; x63; x0d; x64; x0d; x0a; x78].
+Definition ex_d2 : bytes := [x61; x62; x0d; x0a; x0a; x0d; x0a].
+
+Lemma ex_nl_unbordered : unbordered ex_nl.
+Proof. apply ten_newlines_unbordered. vm_compute. tauto. Qed.
+
+Example C16_hyps_ex1 :
+  ex_d1 <> [] /\ ex_nl <> [] /\ unbordered ex_nl /\
+  split_lines_g byte_eqb ex_d1 ex_nl true = Ok [[x61; x62; x0d; x0a]; [x0d; x0a]; [x63; x0d; x64; x0d; x0a]; [x78]] /\
+  split_lines_g byte_eqb ex_d1 ex_nl false = Ok [[x61; x62]; []; [x63; x0d; x64]; [x78]] /\
+  suffixb byte_eqb ex_nl ex_d1 = false /\ occurrences byte_eqb ex_nl ex_d1 = 3.
+Proof. repeat split; try discriminate; try exact ex_nl_unbordered; vm_compute; reflexivity. Qed.
+
+Example C16_hyps_ex2 :
+  ex_d2 <> [] /\ ex_nl <> [] /\ unbordered ex_nl /\
+  split_lines_g byte_eqb ex_d2 ex_nl true = Ok [[x61; x62; x0d; x0a]; [x0a; x0d; x0a]] /\
+  split_lines_g byte_eqb ex_d2 ex_nl false = Ok [[x61; x62]; [x0a]] /\
+  suffixb byte_eqb ex_nl ex_d2 = true /\ occurrences byte_eqb ex_nl ex_d2 = 2.
+Proof. repeat split; try discriminate; try exact ex_nl_unbordered; vm_compute; reflexivity. Qed.
+
+(* ------------------------------------------------------------------------------------------------ *)
+(* C16 at bytes *)
+
+Definition b_terminated := terminated byte_eqb.
+Definition b_unterminated := unterminated byte_eqb.
+Definition b_strip_one := strip_one byte_eqb.
+
+Theorem C16b_concat : forall (d nl : bytes) (ls : list bytes),
+  d <> [] -> nl <> [] -> unbordered nl ->
+  split_lines d nl true = Ok ls -> concat ls = d.
+Proof. exact (C16_concat byte_eqb byte_eqb_spec). Qed.
+
+Theorem C16b_shape : forall (d nl : bytes) (ls : list bytes),
+  d <> [] -> nl <> [] -> unbordered nl ->
+  split_lines d nl true = Ok ls ->
+  exists init lst, ls = init ++ [lst] /\
+                   Forall (b_terminated nl) init /\
+                   (b_terminated nl lst <-> bends nl d = true) /\
+                   (b_unterminated nl lst <-> bends nl d = false).
+Proof. exact (C16_shape byte_eqb byte_eqb_spec). Qed.
+
+Theorem C16b_count : forall (d nl : bytes) (ls : list bytes),
+  d <> [] -> nl <> [] -> unbordered nl ->
+  split_lines d nl true = Ok ls ->
+  length ls = occurrences byte_eqb nl d + (if bends nl d then 0 else 1).
+Proof. exact (C16_count byte_eqb byte_eqb_spec). Qed.
+
+Theorem C16b_count_nokeep : forall (d nl : bytes) (ls : list bytes),
+  d <> [] -> nl <> [] -> unbordered nl ->
+  split_lines d nl false = Ok ls ->
+  length ls = occurrences byte_eqb nl d + (if bends nl d then 0 else 1).
+Proof. exact (C16_count_nokeep byte_eqb byte_eqb_spec). Qed.
+
+Theorem C16b_modes : forall (d nl : bytes) (ls : list bytes),
+  d <> [] -> nl <> [] ->
+  split_lines d nl true = Ok ls ->
+  split_lines d nl false = Ok (map (b_strip_one nl) ls).
+Proof. exact (C16_modes byte_eqb byte_eqb_spec). Qed.
+
+Theorem C16b_total_ok : forall (d nl : bytes) (k : bool),
+  d <> [] -> nl <> [] -> exists ls, split_lines d nl k = Ok ls.
+Proof. exact (C16_total_ok byte_eqb byte_eqb_spec). Qed.
+
+Theorem C16b_total_err : forall (d nl : bytes) (k : bool),
+  d = [] \/ nl = [] -> split_lines d nl k = Err EAssertion.
+Proof. exact (C16_total_err byte_eqb). Qed.
+
+(* what the two line predicates and strip_one mean, position by position *)
+Theorem b_terminated_positions : forall nl ln : bytes, nl <> [] ->
+  (b_terminated nl ln <->
+   exists body, ln = body ++ nl /\ forall i, i < length body -> bstarts nl (skipn i ln) = false).
+Proof. exact (terminated_positions byte_eqb byte_eqb_spec). Qed.
+
+Theorem b_unterminated_positions : forall nl ln : bytes,
+  b_unterminated nl ln ->
+  ln <> [] /\ bends nl ln = false /\ forall i, i < length ln -> bstarts nl (skipn i ln) = false.
+Proof.
+  intros nl ln H. split; [apply H|]. split; [apply H|]. exact (unterminated_positions byte_eqb nl ln H).
+Qed.
+
+Theorem b_strip_one_spec : forall nl body ln : bytes,
+  b_strip_one nl (body ++ nl) = body /\ (bends nl ln = false -> b_strip_one nl ln = ln).
+Proof.
+  intros nl body ln. split.
+  - exact (strip_one_terminated byte_eqb byte_eqb_spec nl body).
+  - intros H. unfold b_strip_one, strip_one. unfold bends in H. rewrite H. reflexivity.
+Qed.
+
+Theorem bstarts_spec : forall p l : bytes, bstarts p l = true <-> exists r, l = p ++ r.
+Proof. exact (prefixb_spec byte_eqb byte_eqb_spec). Qed.
+Theorem bends_spec : forall s l : bytes, bends s l = true <-> exists q, l = q ++ s.
+Proof. exact (suffixb_spec byte_eqb byte_eqb_spec). Qed.
+Theorem bjoin_bsplit : forall sep l : bytes, sep <> [] -> join sep (bsplit sep l) = l.
+Proof. exact (join_split byte_eqb byte_eqb_spec). Qed.
+
+(* ------------------------------------------------------------------------------------------------ *)
+(* stronger catalogue facts: all four newline fields of every row (stateless or not); and every newline
+   the model's get_newline_for_type can return, for any line-endings name and any encoding spelling *)
+
+Definition row_all_newlines_ok (r : GenCodecs.codec_row) : bool :=
+  nl_ok (GenCodecs.cr_lf r) && nl_ok (GenCodecs.cr_crlf r) &&
+  nl_ok (GenCodecs.cr_lf_mid r) && nl_ok (GenCodecs.cr_crlf_mid r) &&
+  (if GenCodecs.cr_stateless r
+   then negb (is_nil (GenCodecs.cr_lf_mid r)) && negb (is_nil (GenCodecs.cr_crlf_mid r)) else true).
+
+Lemma library_all_newlines_unborderedb : forallb row_all_newlines_ok GenCodecs.rows = true.
+Proof. vm_compute. reflexivity. Qed.
+
+Theorem library_all_newlines_unbordered : forall r, In r GenCodecs.rows ->
+  (forall nl, In nl [GenCodecs.cr_lf r; GenCodecs.cr_crlf r; GenCodecs.cr_lf_mid r; GenCodecs.cr_crlf_mid r] ->
+              nl <> [] -> unbordered nl) /\
+  (GenCodecs.cr_stateless r = true -> GenCodecs.cr_lf_mid r <> [] /\ GenCodecs.cr_crlf_mid r <> []).
+Proof.
+  intros r Hin. pose proof library_all_newlines_unborderedb as H. rewrite forallb_forall in H.
+  specialize (H r Hin). unfold row_all_newlines_ok in H. rewrite !andb_true_iff in H.
+  destruct H as [[[[H1 H2] H3] H4] H5]. split.
+  - intros nl [<- | [<- | [<- | [<- | []]]]]; apply nl_ok_sound; assumption.
+  - intros Hst. rewrite Hst in H5. apply andb_true_iff in H5. destruct H5 as [Ha Hb].
+    split; intros E; rewrite E in *; discriminate.
+Qed.
+
+Lemma list_eqb_eq {A} (eqb : A -> A -> bool) (eqb_spec : forall a b, eqb a b = true <-> a = b) :
+  forall a b, list_eqb eqb a b = true <-> a = b.
+Proof.
+  induction a as [|x a IH]; intros [|y b]; cbn [list_eqb]; try (split; [discriminate | discriminate]).
+  - split; reflexivity.
+  - rewrite andb_true_iff, eqb_spec, IH. split; [intros [-> ->]; reflexivity | intros H; injection H; auto].
+Qed.
+
+Lemma beq_eq : forall a b, beq a b = true <-> a = b.
+Proof. exact (list_eqb_eq byte_eqb byte_eqb_spec). Qed.
+
+Lemma find_row_some : forall s rows r, Codec.find_row s rows = Some r -> In r rows /\ s = GenCodecs.cr_spelling r.
+Proof.
+  intros s rows r. induction rows as [|r0 rows IH]; cbn [Codec.find_row]; [discriminate|].
+  destruct (beq s (GenCodecs.cr_spelling r0)) eqn:E.
+  - intros H. injection H as <-. split; [left; reflexivity | apply beq_eq; exact E].
+  - intros H. destruct (IH H) as [H1 H2]. split; [right; exact H1 | exact H2].
+Qed.
+
+Lemma assoc_get_beq_in {V} : forall k (d : list (bytes * V)) v, assoc_get beq k d = Some v -> In k (map fst d).
+Proof.
+  intros k d v. induction d as [|[k' v'] d IH]; cbn [assoc_get map fst In]; [discriminate|].
+  destruct (beq k k') eqn:E.
+  - intros _. left. symmetry. apply beq_eq. exact E.
+  - intros H. right. exact (IH H).
+Qed.
+
+Definition gn_ok (le : bytes) (enc : option bytes) : bool :=
+  match get_newline_for_type le enc with
+  | Ok nl => negb (is_nil nl) && unborderedb byte_eqb nl
+  | Err _ => true
+  end.
+
+Lemma model_newlines_unborderedb :
+  forallb (fun le => gn_ok le None && forallb (fun r => gn_ok le (Some (GenCodecs.cr_spelling r))) GenCodecs.rows)
+          (map fst GenText.newline_formats) = true.
+Proof. vm_compute. reflexivity. Qed.
+
+(* every newline sequence that the model of get_newline_for_type returns is non-empty and unbordered *)
+Theorem model_newlines_unbordered : forall le enc nl,
+  get_newline_for_type le enc = Ok nl -> nl <> [] /\ unbordered nl.
+Proof.
+  intros le enc nl H.
+  assert (Hok : gn_ok le enc = true).
+  { pose proof model_newlines_unborderedb as Hall. rewrite forallb_forall in Hall.
+    destruct (assoc_get beq le GenText.newline_formats) as [t|] eqn:Ele.
+    2:{ unfold get_newline_for_type in H. rewrite Ele in H. discriminate H. }
+    specialize (Hall le (assoc_get_beq_in le _ t Ele)). apply andb_true_iff in Hall. destruct Hall as [Hnone Hrows].
+    destruct enc as [e|]; [|exact Hnone].
+    destruct (Codec.find_row e GenCodecs.rows) as [r|] eqn:F.
+    - apply find_row_some in F. destruct F as [Hin ->]. rewrite forallb_forall in Hrows. exact (Hrows r Hin).
+    - unfold get_newline_for_type, enc_or_ascii, py_encode, Codec.lookup_codec in H.
+      rewrite Ele, F in H. discriminate H. }
+  unfold gn_ok in Hok. rewrite H in Hok. apply andb_true_iff in Hok. destruct Hok as [H1 H2]. split.
+  - intros ->. discriminate.
+  - exact (unborderedb_sound byte_eqb byte_eqb_spec nl H2).
+Qed.
+
+Import String.StringSyntax.
+Local Open Scope string_scope.
+Example model_newlines_ex :
+  get_newline_for_type GenText.le_dos (Some (B "utf-16")) = Ok [x0d; x00; x0a; x00] /\
+  get_newline_for_type GenText.le_unix None = Ok [x0a].
+Proof. split; vm_compute; reflexivity. Qed.
+
+(* ------------------------------------------------------------------------------------------------ *)
+(* the whole of C16 for one (data, newline) pair, and its instances for the newlines the library uses *)
+
+Definition C16_statement (d nl : bytes) : Prop :=
+  exists ls,
+    split_lines d nl true = Ok ls /\
+    concat ls = d /\
+    (exists init lst, ls = init ++ [lst] /\
+                      Forall (b_terminated nl) init /\
+                      (b_terminated nl lst <-> bends nl d = true) /\
+                      (b_unterminated nl lst <-> bends nl d = false)) /\
+    List.length ls = occurrences byte_eqb nl d + (if bends nl d then 0 else 1) /\
+    split_lines d nl false = Ok (map (b_strip_one nl) ls).
+
+Theorem C16b_all : forall d nl : bytes, d <> [] -> nl <> [] -> unbordered nl -> C16_statement d nl.
+Proof.
+  intros d nl Hd Hnl Hu. destruct (C16b_total_ok d nl true Hd Hnl) as [ls H]. exists ls.
+  split; [exact H|]. split; [exact (C16b_concat d nl ls Hd Hnl Hu H)|].
+  split; [exact (C16b_shape d nl ls Hd Hnl Hu H)|].
+  split; [exact (C16b_count d nl ls Hd Hnl Hu H) | exact (C16b_modes d nl ls Hd Hnl H)].
+Qed.
+
+Theorem C16b_ten : forall d nl : bytes, In nl ten_newlines -> d <> [] -> C16_statement d nl.
+Proof. intros d nl Hin Hd. destruct (ten_newlines_unbordered nl Hin). apply C16b_all; assumption. Qed.
+
+Theorem C16b_model_newlines : forall le enc nl d,
+  get_newline_for_type le enc = Ok nl -> d <> [] -> C16_statement d nl.
+Proof. intros le enc nl d H Hd. destruct (model_newlines_unbordered le enc nl H). apply C16b_all; assumption. Qed.
+
+Theorem C16b_catalogue : forall r nl d, In r GenCodecs.rows ->
+  In nl [GenCodecs.cr_lf r; GenCodecs.cr_crlf r; GenCodecs.cr_lf_mid r; GenCodecs.cr_crlf_mid r] ->
+  nl <> [] -> d <> [] -> C16_statement d nl.
+Proof.
+  intros r nl d Hr Hin Hnl Hd. destruct (library_all_newlines_unbordered r Hr) as [H _].
+  apply C16b_all; auto.
+Qed.
+
+Example C16_statement_ex : C16_statement ex_d1 ex_nl /\ C16_statement ex_d2 ex_nl.
+Proof. split; apply C16b_ten; try discriminate; vm_compute; tauto. Qed.
